@@ -1,10 +1,10 @@
 package main
 
 import (
-	"sort"
 	"encoding/json"
 	"fmt"
 	"reflect"
+	"sort"
 	"strings"
 
 	stackage "github.com/JesseCoretta/go-stackage"
@@ -158,6 +158,13 @@ func c09Exec(c *Ctx, rv c09Recv, calls []c09Call, count bool) {
 		if p != "" {
 			c.Violation("panic:"+cl.Method, desc+" panicked: "+p, cs, size)
 			return
+		}
+		// a method that hands back its own type is fluent: the result is the receiver, refused call or
+		// not (whoever chains on continues with the same instance, not with an empty one)
+		if len(res) == 1 && res[0].Type() == reflect.TypeOf(x) && cl.Method != "Init" {
+			if dr, d0 := stackage.VerifDump(res[0].Interface()), stackage.VerifDump(orig); dr == nil || dr.Addr != d0.Addr {
+				c.Violation("fluent-result-is-not-the-receiver:"+cl.Method, desc+" returned an instance other than the receiver (a zero value or a copy): a chained call continues elsewhere", cs, size)
+			}
 		}
 		if flagCleared {
 			continue // the flag was legitimately cleared by an earlier call of this sequence
